@@ -565,6 +565,7 @@ func (v *FV) callMods(fr *Frame, cc *ssa.CallCommon, mod map[string]bool, all *b
 		return
 	}
 	if lk := v.lockCall(cc); lk != "" {
+		mod["LOCKED"] = true
 		// lock acquisition havocs protected fields
 		*all = *all || v.lockHasDecl(fr, cc)
 		return
